@@ -126,6 +126,7 @@ type FnVC struct {
 	deferred []*ssa.Defer
 	allocPos map[token.Pos]*ssa.Alloc
 	safetyAssumed int
+	behavClause bool
 	localSorts map[string]string
 	localTypes map[string]types.Type
 	localNames map[string]string
@@ -299,6 +300,11 @@ func (v *FnVC) oblige(kind, label, goal string, props []string, claimed bool, te
 		v.assumeQuiet(goal)
 		return
 	}
+	if v.behav != "" && !v.behavClause {
+		// already proved in the default behaviour under weaker assumptions
+		v.assumeQuiet(goal)
+		return
+	}
 	if goal == "true" {
 		return
 	}
@@ -330,6 +336,7 @@ func (v *FnVC) safety(label, goal string, pos token.Pos) {
 		v.assume(goal)
 		return
 	}
+	v.behavClause = false
 	v.oblige("safety", label, goal, nil, true, label, pos)
 }
 
@@ -1026,6 +1033,7 @@ func (v *FnVC) enterLoop(b *ssa.BasicBlock, l *loopInfo) {
 	for i, cl := range invs {
 		for j, c := range v.flatten(cl.E) {
 			t := v.specBoolE(c, env, cl)
+			v.behavClause = cl.Behav != ""
 			v.oblige("inv["+lab+"]", v.clauseLabel(cl, i, j)+"/init", t, cl.Props, true, c.String(), token.NoPos)
 		}
 	}
@@ -1116,12 +1124,14 @@ func (v *FnVC) backEdge(from, to *ssa.BasicBlock, edge string) {
 	for i, cl := range v.loopClauses(l, "invariant") {
 		for j, c := range v.flatten(cl.E) {
 			t := v.specBoolE(c, env, cl)
+			v.behavClause = cl.Behav != ""
 			v.oblige("inv["+lab+"]", v.clauseLabel(cl, i, j)+suffix, t, cl.Props, true, c.String(), token.NoPos)
 		}
 	}
 	for i, cl := range v.loopClauses(l, "decreases") {
 		t := v.specTerm(cl.E, env, cl)
 		if i < len(l.decr) {
+			v.behavClause = cl.Behav != ""
 			v.oblige("decreases["+lab+"]", strconv.Itoa(i+1)+suffix, fmt.Sprintf("(and (>= %s 0) (< %s %s))", l.decr[i], t.S, l.decr[i]), cl.Props, true, cl.Text, token.NoPos)
 		}
 	}
